@@ -21,7 +21,7 @@ RULE = ("a case is a schema over all persistent families (containers of encoded 
         "modulo the two stated normalisations, and the default key file must stay untouched; out-of-domain (state, "
         "format) pairs are skipped and counted; non-trivial = state with >= 3 set values reloaded in >= 2 formats; "
         "distinct = distinct (schema, state)")
-REQUIRED = ("second_loads_after_in_place_changes", "documents_with_related_strings", "dynamic_fields_with_dotted_names", "roundtrips_after_key_rotation", "schema_key_equals_root_tag", "nested_encoded_containers", "roundtrips:json", "roundtrips:yaml", "roundtrips:bson", "roundtrips:xml", "roundtrips:pickle",
+REQUIRED = ("roundtrips_after_a_field_was_declared_again", "second_loads_after_in_place_changes", "documents_with_related_strings", "dynamic_fields_with_dotted_names", "roundtrips_after_key_rotation", "schema_key_equals_root_tag", "nested_encoded_containers", "roundtrips:json", "roundtrips:yaml", "roundtrips:bson", "roundtrips:xml", "roundtrips:pickle",
             "tree_plainness_checks", "virtual_key_checks", "states_validated", "list_of_config_states",
             "encoded_item_containers")
 ASSUMPTIONS = ["equality is judged on the plain image of the configurations (values at every depth), not on object identity",
@@ -297,6 +297,37 @@ def run(case, ctx, res):
                 res.viol("M-roundtrip", "differs-after-key-rotation:%s" % fmt, "%s: the key file was replaced between two saves of the "
                          "unchanged state; the re-loaded configuration differs: %s" % (fmt, "; ".join(diff[:3])))
                 return
+    # ---- after the configuration has been serialised, a bytes field of its schema is declared again under the same key
+    # with the other text encoding; the next document is written for the schema as it is now and loads into a fresh one
+    if done:
+        cands = [nd for nd in root["fields"] if nd["kind"] == "field" and nd["family"] == "bytes"]
+        if cands:
+            nd = cands[0]
+            nd2 = dict(nd, params=dict(nd["params"], encoding="hex" if nd["params"].get("encoding", "base64") != "hex" else "base64"))
+            nd2["params"].pop("default", None)
+            try:
+                setattr(drv.built.schema, nd["key"], spec.make_field(cc, nd2, drv.built, nd["key"]))
+                if cfg[nd["key"]] is None:
+                    cfg[nd["key"]] = b"\x00\xffdeclared-again"
+                want = bytes(cfg[nd["key"]])
+            except Exception:
+                want = None
+            if want is not None:
+                fmt = [f for f in trees.FORMATS if trees.in_domain(f, basic) and trees.in_domain(f, tree)][0]
+                fresh = cc.Config(drv.built.schema, key_filename=drv.keyfile)
+                try:
+                    fresh.loads(cfg.dumps(fmt), fmt)
+                    got = fresh[nd["key"]]
+                except Exception as exc:
+                    res.viol("M-roundtrip", "raises-after-redeclaration:%s" % _errkind(exc), "%s: the bytes field %s was declared again "
+                             "(%s encoding) after the first save; saving and re-loading raised %s: %s" % (
+                                 fmt, nd["key"], nd2["params"]["encoding"], type(exc).__name__, str(exc)[:200]))
+                    return
+                res.count("roundtrips_after_a_field_was_declared_again")
+                if got != want:
+                    res.viol("M-roundtrip", "differs-after-redeclaration", "%s: the bytes field %s was declared again (%s encoding) after "
+                             "the first save; %r re-loads as %r" % (fmt, nd["key"], nd2["params"]["encoding"], want, got))
+                    return
     if done >= 2 and _count_set(state) >= 3:
         res.nontrivial(case["schema"], case["tree"], case["ops"], case["dyn"])
 
